@@ -32,7 +32,9 @@ def keyfmt(bits, style):
 
 
 def mk_input(case):
-    return {keyfmt(b, case.get("style", "tuple")): w for b, w in case["items"]}
+    # weights may arrive as numpy scalars (counts from np.unique, uint16 histograms, float32 probabilities): numbers like any other
+    conv = {None: lambda w: w, "int64": np.int64, "uint16": np.uint16, "float32": np.float32, "float64": np.float64, "int8": np.int8}[case.get("wkind")]
+    return {keyfmt(b, case.get("style", "tuple")): conv(w) for b, w in case["items"]}
 
 
 def ctor_case(case):
@@ -316,6 +318,8 @@ def run(run):
             # subsets of the keys (zero-weight keys dropped) and reversed insertion order
             nz = [it for it in items if it[1] > 0]
             cc.append({"items": nz[::-1], "style": "tuple", "valid": True})
+    for wk in ("int64", "uint16", "float32", "float64", "int8"):
+        cc += [{"items": it_, "style": st_, "valid": True, "wkind": wk} for it_ in ([[[0, 1], 1], [[1, 1], 3]], [[[0, 0], 2], [[0, 1], 0], [[1, 0], 5], [[1, 1], 1]], [[[1], 4]]) for st_ in ("tuple", "str")]
     cc += [{"items": [[[0, 1], 0.25], [[1, 1], 0.75]], "style": "str", "valid": True}, {"items": [[[0, 2], 1], [[3, 1], 2]], "style": "comma", "valid": True},
            {"items": [[[0], 0.1], [[1], 0.2]], "style": "tuple", "valid": True}]
     for style in ("tuple", "comma"):   # multi-digit entries: a comma-separated key is split on the commas, nothing else
